@@ -4,7 +4,7 @@ plus an exclude tuple; they are rendered to GenBank text here (render_gb) and, i
 (C10_Model.render_gb; length and hash of the two texts are compared on every case).  A second stream mutates
 rendered files (raw text, never in the domain)."""
 import io, json
-from framework import coq_bs, coq_bool, coq_list, canon_exc
+from framework import coq_bs, coq_bool, coq_list, coq_nat, canon_exc
 
 ID = 'C10'
 COQ_IMPORTS = ['C10_Model']
@@ -63,17 +63,30 @@ def lprint(e):
 
 
 def wrap_at(s, w):
-    w = list(w)
-    out, cur = [], ''
-    for ch in s:
-        cur += ch
-        if ch == ',':
-            flag = w.pop(0) if w else False
-            if flag:
-                out.append(cur)
-                cur = ''
-    out.append(cur)
+    """pieces of the given sizes; the rest is the last piece (mirror of C10_Model.wrap_at)"""
+    out = []
+    for n in w:
+        if n == 0 or len(s) <= n:
+            break
+        out.append(s[:n])
+        s = s[n:]
+    out.append(s)
     return out
+
+
+def wrap_sizes(f):
+    """chunk sizes of a feature's wrapped location; older corpus cases give one bool per comma (break after that comma)"""
+    w = f['wrap']
+    if not any(isinstance(x, bool) for x in w):
+        return [int(x) for x in w]
+    text, sizes, cur, flags = lprint(f['loc']), [], 0, list(w)
+    for ch in text:
+        cur += 1
+        if ch == ',':
+            if flags and flags.pop(0):
+                sizes.append(cur)
+                cur = 0
+    return sizes
 
 
 def field_lines(first, ls):
@@ -107,16 +120,17 @@ def render_rec(r):
             L += field_lines('  ' + sk.ljust(10), sl)
     L.append('FEATURES             Location/Qualifiers')
     for f in r['fts']:
-        ch = wrap_at(lprint(f['loc']), f['wrap'])
+        ch = wrap_at(lprint(f['loc']), wrap_sizes(f))
         L.append(' ' * 5 + f['key'].ljust(16) + ch[0])
         L += [' ' * 21 + c for c in ch[1:]]
         for q in f['quals']:
             L += render_qual(q)
-    L.append('ORIGIN')
-    s = r['seq']
-    for i in range(0, len(s), 60):
-        row = s[i:i + 60]
-        L.append(str(i + 1).rjust(9) + ' ' + ' '.join(row[j:j + 10] for j in range(0, len(row), 10)))
+    if r.get('origin', True):
+        L.append('ORIGIN')
+        s = r['seq']
+        for i in range(0, len(s), 60):
+            row = s[i:i + 60]
+            L.append(str(i + 1).rjust(9) + ' ' + ' '.join(row[j:j + 10] for j in range(0, len(row), 10)))
     L.append('//')
     if r.get('blank'):
         L.append('')
@@ -173,9 +187,9 @@ def rec_term(r):
     hs = coq_list(['(mkhfield %s %s %s)' % (coq_bs(h['k']), coq_list([coq_bs(x) for x in h['v']]),
                                             coq_list(['(%s, %s)' % (coq_bs(sk), coq_list([coq_bs(x) for x in sl]))
                                                       for sk, sl in h['subs']])) for h in r['hdr']])
-    fs = coq_list(['(mkafeat %s %s %s %s)' % (coq_bs(f['key']), l_term(f['loc']), coq_list([coq_bool(b) for b in f['wrap']]),
+    fs = coq_list(['(mkafeat %s %s %s %s)' % (coq_bs(f['key']), l_term(f['loc']), coq_list([coq_nat(n) for n in wrap_sizes(f)]),
                                               coq_list([q_term(q) for q in f['quals']])) for f in r['fts']])
-    return '(mkarec %s %s %s %s)' % (hs, fs, coq_bs(r['seq']), coq_bool(bool(r.get('blank'))))
+    return '(mkarec %s %s %s %s %s)' % (hs, fs, coq_bs(r['seq']), coq_bool(bool(r.get('blank'))), coq_bool(bool(r.get('origin', True))))
 
 
 INVALID = 'out (VL [VB false; VI 0; VI 0; VB false; VL [VNone; VNone]])'
@@ -194,7 +208,8 @@ def model_term(case):
 
 def split_model(case, m):
     wf, ln, h, viewok, res = m
-    return bool(wf), {'wf': bool(wf), 'len': ln, 'hash': h, 'viewok': viewok, 'res': [res[0], res[0], res[1]]}
+    # raw texts are never in the domain of the theorems (wf is False) but are compared exactly (see agree)
+    return bool(wf) or 'raw' in case, {'wf': bool(wf), 'len': ln, 'hash': h, 'viewok': viewok, 'res': [res[0], res[0], res[1]]}
 
 
 # ----------------------------------------------------------------------------- implementation driver
@@ -208,9 +223,15 @@ def _ft(ft):
     return [ft.type, [[l.start, l.stop, str(l.strand), int(l.defect)] for l in ft.locs], quals, ft.meta.get('seqid')]
 
 
+def _attr(a):
+    """header metadata: [[key, str | nested], ...] in the order of the Attr"""
+    from sugar.core.meta import Attr
+    return [[k, _attr(v) if isinstance(v, Attr) else v] for k, v in a.items()]
+
+
 def _seq(s):
     fts = s.meta.get('fts')
-    return [s.id, str(s), None if fts is None else [_ft(f) for f in fts]]
+    return [s.id, str(s), None if fts is None else [_ft(f) for f in fts], _attr(s.meta._genbank)]
 
 
 TRANSPORTS = ('file', 'glob', 'zip', 'gz')
@@ -292,6 +313,10 @@ def agree(case, iv, mv):
         return False
     if iv['len'] != mv['len'] or iv['hash'] != mv['hash']:
         return False                    # the two renderers differ: the tie itself is broken
+    if 'raw' in case:
+        # arbitrary (mutated) text: outside the theorems, but the model is the reader line by line, so every entry point must
+        # raise exactly when the model raises (classes of these error paths are not compared) and return exactly the model's value
+        return all((_raised(i) and _raised(m)) or (not _raised(i) and not _raised(m) and i == m) for i, m in zip(iv['res'], mv['res']))
     if not mv['wf']:
         return [_raised(x) for x in iv['res']] == [_raised(x) for x in mv['res']]
     return mv['viewok'] is True and iv['res'] == mv['res']
@@ -315,12 +340,30 @@ def sem(e):
     return [x for sub in e[1] for x in sem(sub)]
 
 
+def exp_hdr(r):
+    """header fields as metadata: lower-case field name -> text (continuation lines joined with one blank, LOCUS words joined
+    with ', '); a sub-field turns the value into {id: value so far, subfield: text}; REFERENCE is dropped"""
+    d = {}
+    for h in r['hdr']:
+        k = h['k'].lower()
+        v = ' '.join(h['v'])
+        if k == 'locus' and h['v']:
+            v = ' '.join([', '.join(h['v'][0].split())] + h['v'][1:])
+        for sk, sl in h['subs']:
+            v = {'id': v}
+            v[sk.lower()] = ' '.join(sl)
+        d[k] = v
+    d.pop('reference', None)
+    ser = lambda x: [[k, ser(v)] for k, v in x.items()] if isinstance(x, dict) else x
+    return ser(d)
+
+
 def expected(case):
     excl = case['excl']
     recs, allfts = [], []
     for r in case['recs']:
         acc = [h for h in r['hdr'] if h['k'] == 'ACCESSION']
-        rid = acc[0]['v'][0].split()[0] if acc else None
+        rid = acc[-1]['v'][0].split()[0] if acc else None
         fts = []
         for f in r['fts']:
             ls = sem(f['loc'])
@@ -329,24 +372,24 @@ def expected(case):
                 ls = sorted(ls, key=lambda l: -l[1])
             else:
                 ls = sorted(ls, key=lambda l: l[0])
-            quals, flags = [], [q[1] for q in f['quals'] if q[0] == 'f']
-            seen = False
+            # qualifiers as a mapping: a repeated key keeps its first position and its last value; flags are collected under 'misc'
+            quals = {}
             for q in f['quals']:
                 if q[0] == 'f':
-                    if not seen:
-                        quals.append(['misc', flags])
-                    seen = True
+                    quals.setdefault('misc', []).append(q[1])
                 elif q[0] == 't':
-                    quals.append([q[1], ''.join(q[2])])
+                    quals[q[1]] = ''.join(q[2])
                 else:
-                    quals.append([q[1], q[2]])
+                    quals[q[1]] = q[2]
             if 'translation' in excl:
-                quals = [q for q in quals if q[0] != 'translation']
-            fts.append([f['key'], [list(l) for l in ls], quals, rid])
-        if 'fts' in excl:           # the exclude option removes exactly what it names
-            recs.append([rid or '', '' if 'seq' in excl else r['seq'].upper(), None])
+                quals.pop('translation', None)
+            fts.append([f['key'], [list(l) for l in ls], [[k, v] for k, v in quals.items()], rid])
+        origin = r.get('origin', True)
+        seq = '' if 'seq' in excl or not origin else r['seq'].upper()
+        if 'fts' in excl or not origin:           # the exclude option removes exactly what it names; no ORIGIN line: no feature list
+            recs.append([rid or '', seq, None, exp_hdr(r)])
         else:
-            recs.append([rid or '', '' if 'seq' in excl else r['seq'].upper(), fts])
+            recs.append([rid or '', seq, fts, exp_hdr(r)])
             allfts += fts
     return recs, allfts
 
@@ -974,9 +1017,13 @@ LEVEL_NOTE = ('All 13 theorems are closed under the global context. Proved for a
               'Coq renderer (length + hash per case). wf_C10 contains two checked side conditions that are implied by its character classes '
               'but kept as booleans instead of being proved: no rendered line contains a newline, and ORIGIN line numbers are digit strings of '
               'at most 9 characters (fewer than 10^9 residues). Numbers in locations and numeric qualifiers are the digit strings of the file; '
-              'their value is the Horner value dval (int() of a digit string is proved equal to it). Domain restrictions: one strand per '
-              'feature (LocationTuple rejects mixed strands with ValueError, proved), distinct qualifier keys per feature (a dict keeps the '
-              'last), multi-line quoted values are joined without a separator (right for /translation), a FEATURES line is required for '
+              'their value is the Horner value dval (int() of a digit string is proved equal to it). Domain after round 7: qualifier keys may '
+              'repeat (dict semantics: first position, last value - part of the view), header fields are observables (record metadata '
+              'meta._genbank with nested Attr for sub-fields, REFERENCE dropped), locations are wrapped at ANY break point (pieces of any '
+              'sizes), records without an ORIGIN line are inside when they have no feature or fts is excluded (no residues, no feature list). '
+              'Remaining restrictions: one strand per '
+              'feature (LocationTuple rejects mixed strands with ValueError, proved), multi-line quoted values are joined without a separator '
+              '(right for /translation) and contain no blanks, a FEATURES line is required for '
               'ORIGIN to be recognised, feature keys of at most 15 characters not starting with "origin", keys named like mapping methods '
               'excluded (F20). The defect exclude_fts found by this check is fixed in /repo (da56cff) and in the domain. '
               'Statement coverage of the modelled functions in the quick tier: genbank.py _split_toplevel/_parse_locs/_parse_single_loc/'
